@@ -732,10 +732,11 @@ def bpe_runs(ctx, prefixes):
 
 
 def tok_long(ctx, prefixes):
-    """Inputs longer than 65 535 bytes (positions that do not fit into 16 bits), with and without whitespace."""
+    """Inputs longer than 65 535 bytes (positions that do not fit into 16 bits), with and without whitespace (runs of two
+    whitespace characters, CR LF, blank lines; never at the end of the text, where BPE drops it by design)."""
     tab = ["ab", "ac", "gt", "ta", "cg", "acgt"]
     cases = [{"kind": "long", "pattern": pat, "repeat": rep, "tab": tab}
-             for (pat, rep) in (("ba", 35000), ("cgta", 17500), ("tacg", 17500), ("ab cg ta", 9000), ("ä", 33000))]
+             for (pat, rep) in (("ba", 35000), ("cgta", 17500), ("\t ab  cg\r\nta \n\nacgt", 3500), ("tacg", 17500), ("ab cg ta", 9000), ("ä", 33000))]
     cpath = ctx.path("cases-long.ndjson")
     vlib.write_ndjson(cpath, cases if not ctx.quick() else cases[:3])
     tok_judge(ctx, cpath, "long", prefixes)
